@@ -103,7 +103,7 @@ fn case(item: u64, rng: &mut Rng, acc: &mut Acc) {
         let mut key = vec![gkey];
         key.extend(x[base..].iter().map(|v| v.to_bits()));
         acc.distinct.insert(hash_u64s(&key));
-        if item < 30 && d * l == 3 {
+        if acc.samples.is_empty() {
             acc.sample(json!({"D": d, "L": l, "tail_of_x": x[base..].to_vec(), "q_vectors": m.q}));
         }
         if !fails.is_empty() {
